@@ -35,6 +35,7 @@ def main():
             break
         cs = case.Case(prop, seed_str, tier, acc)
         drive.SPELL["rng"] = env.rng_for(seed_str, "spelling") if getattr(mon, "SPELLING", True) else None
+        drive.VERBOSE["rng"] = env.rng_for(seed_str, "verbose") if getattr(mon, "VERBOSITY", True) else None
         try:
             mon.run_case(cs)
             acc["cases"] += 1
